@@ -680,6 +680,61 @@ for _k in ("parse", "malformed", "eq", "eqstr", "roundtrip"):
     globals()["observe_C20_" + _k] = observe_C20
 
 
+# ------------------------------------------------------------------------------------------------ decoders (C07-C10)
+def decoder_fn(meter, form):
+    import importlib
+    mod = importlib.import_module("han." + meter)
+    return mod.decode_frame_content if form == "frame" else mod.decode_notification_body
+
+
+def dec_obs(d):
+    if not isinstance(d, dict):
+        return repr(d)
+    out = []
+    for k in sorted(d):
+        v = d[k]
+        out.append([k, v if isinstance(v, str) else ("#" if isinstance(v, (int, float)) else "~")])
+    return out
+
+
+def observe_decoder(w):
+    try:
+        return dec_obs(decoder_fn(w["meter"], w["form"])(bytes.fromhex(w["data"])))
+    except Exception as e:
+        return "exc:" + type(e).__name__
+
+
+def judge_decoder(w):
+    from . import cosem_ref as CR
+    data = bytes.fromhex(w["data"])
+    try:
+        exp = CR.expected(w["meter"], list(data), w["form"])
+    except CR.Malformed as e:
+        return None                      # not a well-formed documented list: outside C07-C10
+    try:
+        got = decoder_fn(w["meter"], w["form"])(data)
+    except Exception as e:
+        return {"signature": "exception:" + exc_signature(e), "detail": f"{type(e).__name__}: {e}; {w['meter']} {w['form']} {w['data']}"}
+    r = CR.compare_concrete(exp, got)
+    if r:
+        return {"signature": r[0], "detail": f"{w['meter']} {w['form']}: {r[1]}; data={w['data']}"}
+    if w.get("other_form"):
+        # frame and bare-body decoding agree (except the clock rules)
+        try:
+            got2 = decoder_fn(w["meter"], "body")(data[CR.split_frame(list(data))[1]:])
+        except Exception as e:
+            return {"signature": "exception:" + exc_signature(e), "detail": f"body decoding: {e!r}"}
+        for k in set(got) | set(got2):
+            if k != "meter_datetime" and got.get(k) != got2.get(k):
+                return {"signature": "frame-and-body-disagree", "detail": f"{k}: frame {got.get(k)!r} body {got2.get(k)!r}"}
+    return None
+
+
+for _p in ("C07", "C08", "C09", "C10"):
+    globals()["judge_" + _p] = judge_decoder
+    globals()["observe_" + _p] = observe_decoder
+
+
 # ------------------------------------------------------------------------------------------------ dispatch
 def observe(prop, w):
     fn = globals().get("observe_" + prop + ("_" + w["sub"] if w.get("sub") else ""))
